@@ -135,6 +135,7 @@ func profileFor(prop, tier string, rng *PRNG) *Profile {
 		boost("pnftAdv", 4)
 		p.PBootstrap = 0.08
 	case "C13":
+		p.PBootstrap = 0.12
 		only("aol", "aolAdv", "authz", "rollback")
 		boost("aol", 3)
 		p.Seeded = 0.8
@@ -303,6 +304,14 @@ func GenerateScript(seed uint64, prop, tier string, env *Env) *Script {
 	// and x/upgrade refuses to run that binary while the plan is still in the future ("BINARY UPDATED BEFORE TRIGGER"),
 	// so the proposal is timed to pass in the EndBlock right before the plan height: submitted two 5 s blocks earlier.
 	viaGov := upgradeAt >= 2 && rng.Chance(0.5)
+	if upgradeAt >= 0 && rng.Chance(0.25) {
+		// the operators have agreed to skip this upgrade: every node runs with --unsafe-skip-upgrades=<plan height>
+		h0 := s.Config.InitialHeight
+		if h0 < 1 {
+			h0 = 1
+		}
+		s.Config.SkipUpgradeHeights = []int64{h0 + int64(upgradeAt) + 1}
+	}
 	fams, ws := weightList(g.p.W)
 	for b := 0; b < nBlocks; b++ {
 		if viaGov && b == upgradeAt-2 {
@@ -957,7 +966,21 @@ func (g *Gen) famDidAdv() {
 	upd := func(p *ProofSpec, doc *DocSpec) {
 		g.tx(MsgSpec{T: "did.Update", F: map[string]string{"did": did, "from": from}, Doc: doc, Proof: p})
 	}
-	switch r.Intn(20) {
+	switch r.Intn(22) {
+	case 20, 21: // a genuine proof of one document, carried by an update with ANOTHER document (observed in the mempool, or after
+		// some node only simulated the genuine update): whatever a node remembers about proofs it has seen must not matter
+		d1 := g.didDoc(did, []int{k}, 0)
+		d2 := g.didDoc(did, []int{other}, 0)
+		d2.Services = []SvcSpec{{Id: "svc-x", Type: "LinkedDomains", Endpoint: "https://attacker.example"}}
+		genuine := MsgSpec{T: "did.Update", F: map[string]string{"did": did, "from": from}, Doc: d1, Proof: &ProofSpec{Key: k, MethodID: mid, Seq: "cur"}}
+		forged := MsgSpec{T: "did.Update", F: map[string]string{"did": did, "from": g.addr(r.Intn(NumAccounts))}, Doc: d2, Proof: &ProofSpec{Key: k, MethodID: mid, Seq: "cur", ContentDoc: d1}}
+		switch r.Intn(3) {
+		case 0:
+			g.emitSimulate(&TxSpec{Msgs: []MsgSpec{genuine}}, r.Intn(g.nrep))
+		case 1: // the genuine update inside a transaction that fails as a whole
+			g.emit(&TxSpec{Msgs: []MsgSpec{genuine, M("aol.AddWriter", "topic", "no-such-topic-rollback", "owner", from, "writer", g.addr(0))}, Note: "rolled back as a whole"})
+		}
+		g.tx(forged)
 	case 18, 19: // C11, a third identifier: every method id carries the did field's prefix, only the document's own id names something else
 		x := []string{g.env.Dids[other], caseVariant(did, r), "did:panacea:" + strings.Repeat("1", 32), "not-a-did", did + "x", did[:len(did)-1]}[r.Intn(6)]
 		if r.Chance(0.5) {
@@ -1558,8 +1581,19 @@ func (g *Gen) famTamper() {
 	r := g.rng
 	topics := g.planTopics()
 	var honest, forged []MsgSpec
-	mode := r.Intn(9)
+	mode := r.Intn(10)
 	switch {
+	case mode == 9:
+		// messages of different types whose protobuf bytes are identical (the same values in the same field numbers):
+		// Mint{denom_id,id,name,...,creator} / CreateDenom{id,name,symbol,...,creator} / UpdateDenom{id,name,symbol,...,updater}
+		o := g.addr(r.Intn(4))
+		a, b, c := fmt.Sprintf("wt%d", g.next), []string{"gold", "x", "tok"}[r.Intn(3)], []string{"GLD", "s", "n"}[r.Intn(3)]
+		mint := M("pnft.Mint", "denom", a, "id", b, "name", c, "desc", "d", "uri", "u", "uri_hash", "h", "data", "{}", "creator", o)
+		create := M("pnft.CreateDenom", "id", a, "name", b, "symbol", c, "desc", "d", "uri", "u", "uri_hash", "h", "data", "{}", "creator", o)
+		update := M("pnft.UpdateDenom", "id", a, "name", b, "symbol", c, "desc", "d", "uri", "u", "uri_hash", "h", "data", "{}", "updater", o)
+		three := []MsgSpec{mint, create, update}
+		i := r.Intn(3)
+		honest, forged = []MsgSpec{three[i]}, []MsgSpec{three[(i+1+r.Intn(2))%3]}
 	case mode == 7 && len(g.planDids(true)) > 0:
 		// twins under a careless text encoding of the document: one list element that contains '","' against two elements,
 		// a literal backslash-u escape against the character it would decode to, a quote inside a value
@@ -1692,8 +1726,36 @@ func (g *Gen) famRollback() {
 	toks := g.planTokens()
 	topics := g.planTopics()
 	act := g.planDids(true)
-	kind := r.Intn(9)
+	kind := r.Intn(12)
 	switch {
+	case kind == 9 && len(act) > 0: // a DID deactivated on discarded state is still alive: its owner can update it
+		did := act[r.Intn(len(act))]
+		keys, mids := g.authKeys(did)
+		if len(keys) == 0 {
+			return
+		}
+		from := g.addr(r.Intn(4))
+		m1 = MsgSpec{T: "did.Deactivate", F: map[string]string{"did": did, "from": from}, Proof: &ProofSpec{Key: keys[0], MethodID: mids[0], Seq: "cur"}}
+		m2 = MsgSpec{T: "did.Update", F: map[string]string{"did": did, "from": from}, Doc: g.didDoc(did, []int{keys[0]}, 0), Proof: &ProofSpec{Key: keys[0], MethodID: mids[0], Seq: "cur+1"}}
+		follow = []MsgSpec{{T: "did.Update", F: map[string]string{"did": did, "from": from}, Doc: g.didDoc(did, []int{keys[0]}, 0), Proof: &ProofSpec{Key: keys[0], MethodID: mids[0], Seq: "cur"}}}
+	case kind == 10 && len(toks) > 0: // a token burnt on discarded state still exists: its owner can transfer it
+		t := toks[r.Intn(len(toks))]
+		a := g.plan.Tokens[t[0]][t[1]].Owner
+		if g.env.AccByAddr(mustAddr(a)) == nil {
+			return
+		}
+		m1 = M("pnft.Burn", "denom", t[0], "id", t[1], "burner", a)
+		m2 = M("pnft.Transfer", "denom", t[0], "id", t[1], "sender", a, "receiver", g.addr(2))
+		follow = []MsgSpec{M("pnft.Transfer", "denom", t[0], "id", t[1], "sender", a, "receiver", g.addr(5+r.Intn(4)))}
+	case kind == 11 && len(topics) > 0: // a writer removed on discarded state is still listed (and can be removed for real)
+		t := topics[r.Intn(len(topics))]
+		ws := g.planWriters(t[0], t[1])
+		if len(ws) == 0 {
+			return
+		}
+		m1 = M("aol.DeleteWriter", "topic", t[1], "owner", t[0], "writer", ws[0])
+		m2 = M("aol.DeleteWriter", "topic", t[1], "owner", t[0], "writer", ws[0])
+		follow = []MsgSpec{M("aol.DeleteWriter", "topic", t[1], "owner", t[0], "writer", ws[0]), M("aol.AddWriter", "topic", t[1], "owner", t[0], "writer", ws[0], "moniker", "back")}
 	case kind == 6: // a topic created on discarded state: afterwards it does not exist (no writer can be added, it can be created)
 		o := g.addr(r.Intn(5))
 		t := fmt.Sprintf("rbt%d", g.next)
